@@ -1009,6 +1009,9 @@ def c17_plan(pid, tier, seed, t0):
                 cid, kind = cid + ".big", kind[4:]
             if kind.startswith("names."):
                 cid, kind = cid + ".names", kind[6:]
+            if kind.startswith("deep"):
+                pre, _, kind = kind.partition(".")
+                cid = cid + "." + pre
             if c == "n-default":
                 kinds[kind] = kinds.get(kind, 0) + 1
                 merged["distinct"].add(hash(ln) & 0xFFFFFFFFFFFF)
